@@ -4,6 +4,8 @@ import os, subprocess, tempfile
 from zw import walk, walk_nolambda, unwrap, short, Broken, calls, field_chain, VERIF
 
 PROTOCOL_BASES = ("op", "pred", "stringer", "builtin")
+STATE_MUTATORS = {"insert", "emplace", "emplace_back", "push_back", "erase", "clear", "operator[]", "try_emplace", "insert_or_assign",
+                  "pop_back", "resize", "assign", "swap", "append"}
 
 
 def lib_units(prog):
@@ -74,6 +76,9 @@ def q1(prog):
                 tgt = x["e"]
             elif x.get("k") == "call" and x.get("op") in ("=", "+=", "-=", "++", "--", "<<=", "|=", "&=") and x.get("ismethod"):
                 tgt = x["a"][0]
+            elif x.get("k") == "call" and x.get("obj") is not None and x.get("fn") in STATE_MUTATORS and \
+                    (x.get("cls") or "").startswith(("std::map<", "std::vector<", "std::set<", "std::unordered_", "std::deque<", "std::list<", "std::multimap<", "std::basic_string<")):
+                tgt = x["obj"]
             if tgt is None:
                 continue
             r = root_ref(tgt)
